@@ -282,6 +282,62 @@ theorem C15_after_stop_returns (s : State) (hs : s.stopped = true) (tx : Tx) (r 
     step s (.bcast tx r) = (s, .stopped) ∧ step s (.confirm id) = (s, .ret) ∧ (step s .stop).2 = .ret := by
   simp [step, hs]
 
+/-! ## a closed block subscription -/
+
+/-- the handler's spinning on the closed channel, removed from a history -/
+def noSpin (ops : List Op) : List Op := ops.filter (fun o => o != .subSpin)
+
+def noSpinOuts (s : State) : List Op → List Out
+  | [] => []
+  | o :: os => if o = .subSpin then noSpinOuts (step s o).1 os else (step s o).2 :: noSpinOuts (step s o).1 os
+
+/-- **A closed block subscription is harmless.**  The arm of the handler's select for a closed
+subscription channel ends in `continue` (source fact): the handler goes on serving its other arms.
+Therefore, from ANY state and for EVERY history:
+* however often the handler takes the closed-channel arm (`subSpin` anywhere in the history), the
+  final state and every answer of the other events are exactly those of the history without it;
+* the `subClosed` flag changes no answer and no other part of the state: after the closure every
+  tick with something pending and no rebroadcast running still starts a rebroadcast of exactly the
+  pending set, `Broadcast` is answered with the network's verdict and `MarkAsConfirmed` returns. -/
+theorem C15_closed_subscription_harmless :
+    closedSubArm = "continue" ∧
+    (∀ (s : State) (ops : List Op), run s ops = run s (noSpin ops) ∧ noSpinOuts s ops = outs s (noSpin ops)) ∧
+    (∀ (s : State) (o : Op), (step { s with subClosed := true } o).2 = (step s o).2 ∧
+        (step { s with subClosed := true } o).1 = { (step s o).1 with subClosed := true }) ∧
+    (∀ (s : State), (step s .closeSub).1.stopped = false → (step s .closeSub).1.running = none →
+        (step s .closeSub).1.pending ≠ [] →
+        (step (step s .closeSub).1 .trigger).2 = .started (ids s.pending)) ∧
+    (∀ (s : State) (tx : Tx) (r : Res) (id : TxId), s.stopped = false →
+        ((step (step s .closeSub).1 (.bcast tx r)).2 = .ok ∨ (step (step s .closeSub).1 (.bcast tx r)).2 = .err r) ∧
+        (step (step s .closeSub).1 (.confirm id)).2 = .ret) := by
+  refine ⟨by decide, ?_, ?_, ?_, ?_⟩
+  · intro s ops
+    induction ops generalizing s with
+    | nil => exact ⟨rfl, rfl⟩
+    | cons o os ih =>
+      by_cases h : o = .subSpin
+      · subst h
+        have hs : (step s .subSpin).1 = s := rfl
+        have := ih s
+        simp only [run, noSpin, noSpinOuts, hs, ↓reduceIte] at this ⊢
+        simpa [noSpin] using this
+      · have hb : (o != Op.subSpin) = true := by simpa using h
+        have := ih (step s o).1
+        simp only [noSpin] at this
+        simp only [run, noSpin, noSpinOuts, h, ↓reduceIte, List.filter_cons, hb, outs]
+        exact ⟨this.1, by rw [this.2]⟩
+  · intro s o
+    cases o <;> simp only [step] <;> (repeat' split) <;> simp_all
+  · intro s hs hr hp
+    have := C15_trigger_starts (step s .closeSub).1 hs hr hp
+    simpa [step] using this
+  · intro s tx r id hs
+    simp only [step, hs]
+    cases r.keeps <;> simp
+
+example : run {} [.bcast ⟨0, []⟩ .accepted, .closeSub, .subSpin, .subSpin, .trigger, .subSpin, .rbStep 0 .mempool, .subSpin, .trigger]
+    = { pending := [⟨0, []⟩], running := some [⟨0, []⟩], subClosed := true } := by decide
+
 /-- **What the proofs rely on in the source** (a change here breaks this obligation):
 the handler stores a tx only after the network's answer passed the Mempool test, deletes on
 `confChan`, the rebroadcast walks `DependencySort` of its copy; the verdict computation has
